@@ -6,7 +6,9 @@ from . import i_lib
 class TimePattern(i_lib.TimePattern):
     HOURS_24 = set(range(0, 24))
     MINUTES_60 = set(range(0, 60))
-    REGEX_SPEC = r'(\*|\*\d|\d\*|\d\d?):(\d\d|\d\*|\*\d|\*)(?=(\s|$))'
+    # What may follow: white space, the end of the line, a closing bracket,
+    # brace or parenthesis, or the start of a comment.
+    REGEX_SPEC = r'(\*|\*\d|\d\*|\d\d?):(\d\d|\d\*|\*\d|\*)(?=(\s|$|[\]})#]))'
     REGEX = re.compile(REGEX_SPEC)
 
     def __init__(self, hours, minutes):
